@@ -55,6 +55,10 @@ class Contract:
     result_fields: dict = field(default_factory=dict)
     cancel_at_yield: bool = False             # explore CancelledError at every await of this function
     inline: bool = False
+    harness_src: str | None = None                 # sidecar composition of real functions (e.g. decode(encode(x))): fn = 'harness::<name>'
+    harness_module: str | None = None              # repository module whose names the harness sees
+    inline_in_harness: bool = False                # callers inside a harness execute this function's real body
+    float_model: str = "exact"                     # 'exact' | 'ieee': total_seconds() etc. with relative error 2**-53
     bounded: str | None = None                     # name of a bounded stand-in (replaylib/bounded.py); implies not proved
     setup: object = None                           # callable(ip, env): installs concrete parts of the pre-state (representation)
     variants: dict = field(default_factory=dict)       # variant name -> binds override: the body is verified once per variant
